@@ -97,6 +97,8 @@ pub enum Instr {
     Map { f: String, reg: u32 },
     Spawn { script: Script, h: u32 },
     Abort { h: u32 },
+    /// abort the command with this id (of the same program instance) through its AbortHandle
+    Abortc { id: u32 },
     Joinh { h: u32 },
     Join { leaves: Vec<Leaf>, dst: Vec<u32> },
     Select { leaves: Vec<Leaf>, dst: u32, idx: u32 },
@@ -456,6 +458,14 @@ pub fn run_script(
                 }
                 Instr::Abort { h } => {
                     (env.handles[*h as usize].as_ref().expect("no handle").abort)();
+                    pc += 1;
+                }
+                Instr::Abortc { id } => {
+                    let f = crate::app::CASE
+                        .with(|c| c.borrow().as_ref().and_then(|c| c.aborts.lock().unwrap().get(&(env.inst, *id)).cloned()));
+                    if let Some(f) = f {
+                        f();
+                    }
                     pc += 1;
                 }
                 Instr::Joinh { h } => {
